@@ -25,7 +25,7 @@ sys.path.insert(0, str(core.ROOT / 'tools'))
 
 PROP = 'C09'
 MODEL_MODULES = ['TenpyModel.Util.J', 'TenpyModel.MPS.Eval']
-PROPS_MODULES = ['TenpyModel.C09.Props']
+PROPS_MODULES = ['TenpyModel.C09.Props', 'TenpyModel.C09.Props2']
 LEVEL = 'proof'
 BUDGET = {'quick': 200, 'thorough': 1500}
 RULE = ('states from from_full / random block-sparse tensors + canonical_form / singlets on L=2..7 over all site kinds '
